@@ -23,6 +23,9 @@ CodeLock == ("logic.ServerManager.mutex" :> "sm") @@ ("logic.Group.mutex" :> "gr
             ("logic.IpBlacklist.mu" :> "ipb") @@ ("base.PeriodRecord.mu" :> "fps")
 \* channels of the model
 CodeChan == ("logic.Group.exitChan" :> "gexit") @@ ("logic.ServerManager.exitChan" :> "smexit")
+\* channels of capacity 1 that are written at exactly one place, inside a sync.Once body (the dispose paths of the rtsp
+\* sessions, which run under whatever lock the caller of Dispose holds): the one send can never block
+OnceChans == {"rtsp.BaseInSession.waitChan", "rtsp.BaseOutSession.waitChan"}
 \* who may reach the send of Group.Dispose / ServerManager.Dispose: the tick loop (which then erases
 \* the group), the deterministic tick hook, ServerManager.Dispose and the signal handler that calls it
 GexitReach == {"(*logic.Group).Dispose", "(*logic.ServerManager).Dispose", "(*logic.ServerManager).Dispose$1",
@@ -48,11 +51,12 @@ TraceEdge == /\ IsEvent("Edge")
                          /\ <<CodeLock[e.from], CodeLock[e.to]>> \in Allowed)
 TraceSendUnder == /\ IsEvent("SendUnder")
                   /\ LET e == Trace[l]
-                     IN Check(/\ e.from \in DOMAIN CodeLock /\ e.to \in DOMAIN CodeChan
-                              /\ <<CodeLock[e.from], CodeChan[e.to]>> \in SendUnderAllowed)
+                     IN Check(\/ e.to \in OnceChans
+                              \/ /\ e.from \in DOMAIN CodeLock /\ e.to \in DOMAIN CodeChan
+                                 /\ <<CodeLock[e.from], CodeChan[e.to]>> \in SendUnderAllowed)
 \* the exit channels are written at one place each (Group.Dispose, ServerManager.Dispose)
 TraceSend == /\ IsEvent("Send")
-             /\ LET e == Trace[l] IN Check(e.to \in DOMAIN CodeChan => e.sites = 1)
+             /\ LET e == Trace[l] IN Check(e.to \in DOMAIN CodeChan \cup OnceChans => e.sites = 1)
 \* lal never closes a channel, which is why a send can never hit a closed one
 TraceClose == (IsEvent("Close") \/ IsEvent("CloseUnder")) /\ Check(FALSE)
 TraceReach == /\ IsEvent("Reach")
